@@ -63,7 +63,7 @@ peg::parser! {
 /// Fast PEG-based parser that extracts JSON directly from string
 pub fn parse_peg(input: &str) -> Result<Command, ParseError> {
     // balanced_braces() recurses once per '{' outside of strings and stops at
-    // MAX_JSON_NESTING itself; this rejects raw brace depth beyond it up front
+    // MAX_JSON_NESTING itself; this rejects brace depth beyond it up front
     if raw_brace_depth_exceeds(input, MAX_JSON_NESTING) {
         return Err(nesting_error());
     }
@@ -87,13 +87,29 @@ pub fn parse_peg(input: &str) -> Result<Command, ParseError> {
     })
 }
 
-/// Returns true if `input` opens more than `max` nested `{` (strings are not recognised,
-/// unlike in the `balanced_braces` rule: a `}` inside a string closes a level here).
+/// Returns true if `input` opens more than `max` nested `{` outside of string literals,
+/// as the grammar reads them: a string in the payload honours `\"` / `\\` escapes
+/// (`json_string`), one before it (`string_literal`, the context id) has no escapes.
 fn raw_brace_depth_exceeds(input: &str, max: usize) -> bool {
     let mut depth = 0usize;
+    let mut in_payload = false;
+    let mut in_string = false;
+    let mut escaped = false;
     for b in input.bytes() {
+        if in_string {
+            if escaped {
+                escaped = false;
+            } else if b == b'\\' && in_payload {
+                escaped = true;
+            } else if b == b'"' {
+                in_string = false;
+            }
+            continue;
+        }
         match b {
+            b'"' => in_string = true,
             b'{' => {
+                in_payload = true;
                 depth += 1;
                 if depth > max {
                     return true;
